@@ -80,3 +80,32 @@ fn digest_propagates_hmac_error() {
     let t = Totp::new(vec![1u8], 30, TotpAlgo::Sha1, d);
     assert!(t.digest(c).is_err());
 }
+
+// ---- bounded counterexample twin for Totp::verify (runs when the Verus unit fails or can no longer read the function) ----
+// The HMAC-derived code is an arbitrary function of the counter: code(c) for the current counter, code(c-1) for the previous one,
+// and a third arbitrary value for every other counter. verify must accept exactly code(c) and code(c-1).
+static mut K_CUR: u64 = 0;
+static mut V_CUR: u32 = 0;
+static mut V_PREV: u32 = 0;
+static mut V_OTHER: u32 = 0;
+fn stub_code(_t: &Totp, counter: u64) -> Result<u32, TotpError> {
+    unsafe {
+        if counter == K_CUR { Ok(V_CUR) } else if counter + 1 == K_CUR { Ok(V_PREV) } else { Ok(V_OTHER) }
+    }
+}
+#[kani::proof]
+#[kani::stub(Totp::digest, stub_code)]
+#[kani::unwind(4)]
+fn verify_accepts_exactly_current_and_previous_bounded() {
+    // BOUNDED domain: step in {30, 60, 90, 300}, time below 2^20 seconds (64-bit division by a symbolic step is beyond CBMC here)
+    let step: u64 = match kani::any::<u8>() % 4 { 0 => 30, 1 => 60, 2 => 90, _ => 300 };
+    let secs: u64 = kani::any();
+    kani::assume(secs >= step && secs < (1 << 20));
+    let (vc, vp, vo): (u32, u32, u32) = (kani::any(), kani::any(), kani::any());
+    let chal: u32 = kani::any();
+    unsafe { K_CUR = secs / step; V_CUR = vc; V_PREV = vp; V_OTHER = vo; }
+    let t = Totp::new(vec![1u8], step, TotpAlgo::Sha1, TotpDigits::Six);
+    let r = t.verify(chal, Duration::from_secs(secs));
+    if chal == vc || chal == vp { assert!(r); }
+    if chal != vc && chal != vp && chal != vo { assert!(!r); }
+}
